@@ -57,7 +57,7 @@ func (m *minimiser) fails(plan *Plan, dec []uint32) bool {
 		}
 		return false
 	}
-	res := Run(m.t, plan, core.NewReplay(dec), extraFor(plan), true)
+	res := RunPlan(m.t, plan, core.NewReplay(dec), true)
 	if res.HarnessErr != "" {
 		return false
 	}
